@@ -78,7 +78,11 @@ type Connection struct {
 	cancel    context.CancelFunc
 	closeOnce sync.Once
 	closed    chan struct{}
-	ready     chan struct{} // Closed when handshake completes and reader/writer are set
+	// disconnectHandled is set by the first Manager.handleDisconnect call for
+	// this connection; later calls (the other loop noticing the same close)
+	// are ignored.
+	disconnectHandled atomic.Bool
+	ready             chan struct{} // Closed when handshake completes and reader/writer are set
 
 	// Frame processing
 	frameCh    chan *protocol.Frame // Sequential frame dispatch channel (stream-ordered frames)
